@@ -68,7 +68,9 @@ class SortFieldsCustomMiddleware(BlockMiddleware):
                 return len(self._order)
 
         entry.fields = sorted(entry.fields, key=_sort_key)
-        entry.parser_metadata[self.metadata_key()] = self._order
+        # Store a copy: the order list belongs to this middleware (and possibly to the user),
+        #   it must not be shared with the (possibly many) transformed entries.
+        entry.parser_metadata[self.metadata_key()] = list(self._order)
         return entry
 
     # docstr-coverage: inherited
